@@ -469,7 +469,7 @@ def alias_writeback(ctx):
                    'copy of the destination plate', key='shared plate copy without identity test')
         post = fft.post.get(id(st))
         writes = [(c, s, b) for c, s, b in fft.calls if isinstance(c.func, ast.Attribute) and c.func.attr in ('set', 'apply')
-                  and pathkey(c.func.value) in roots and getattr(s, 'lineno', 0) > st.lineno]
+                  and pathkey(c.func.value) in roots and fft.seq(s) > fft.seq(st)]
         gated = False
         pre_alias = set(fft.state_before(st).facts)
         for c, s, b in writes:
